@@ -26,6 +26,8 @@ C04 filtp 0|1 Dre Dim xre xim -> ok out=c:t,c:t;…: the same pipeline on formal
 C04 filtmp n 0|1 Dre Dim xre xim -> ok out=…: the pipeline with an n×n matrix transfer function on a vector field (`filtMOpP`:
                       `filterMP` / `filterMPBackward`) on formal phase sums; D index (i·n+j)·My·Mx + pixel, x index t·ny·nx + pixel;
                       n²·My·Mx ≤ 256; output as `filtp`, index t·ny·nx + pixel
+C04 prop 0|1 xre xim -> ok out=…: the Fresnel propagator set up (transfer-function branch, My·Mx ≤ 64) applied to x, exactly, on
+                      formal phase sums (`propOpP`: `filterP` with the transfer function `fresnelTFP` = mean of the `fresnelSubTurns` phases)
 C04 ir jy         -> ok amp=… turns=[…] (fresnel) | ok r2=[…] (angular): impulse response on row jy of the
                       enlarged grid, for jx = 0..Mx-1 and all s² dithers (x dither fastest)
 ```
@@ -160,6 +162,17 @@ def step (st : St) : List String → St × String
       (st, "ok out=" ++ ";".intercalate (r.map fun s => ",".intercalate (s.terms.map showT)))
     | none, some _, some _, some _, some _, some _, some _ => (st, "err value")
     | _, _, _, _, _, _, _ => (st, "bad-op")
+  | ["prop", back, xre, xim] =>
+    match st.p, parseNat? back, parseRatList? xre, parseRatList? xim with
+    | some p, some back, some xre, some xim =>
+      if back > 1 || my p * mx p > 64 || !(padOK p) || p.kind != .fresnel || impulseBranch p
+          || xre.length ≠ p.ny * p.nx || xim.length ≠ p.ny * p.nx then (st, "err value") else
+      let x := (xre.zip xim).map fun (a, b) => (⟨a, b⟩ : GRat)
+      let r := propOpP p (back == 1) x
+      let showT := fun (t : Fft.Term) => if t.r == 0 then s!"{showRat t.c}:{showRat t.t}" else "?"
+      (st, "ok out=" ++ ";".intercalate (r.map fun s => ",".intercalate (s.terms.map showT)))
+    | none, some _, some _, some _ => (st, "err value")
+    | _, _, _, _ => (st, "bad-op")
   | ["ir", jy] =>
     match st.p, parseNat? jy with
     | some p, some jy =>
